@@ -1,7 +1,7 @@
 #!/bin/bash
 # usage: soak.sh "<seeds>" [props...]  — runs quick checks at several seeds, prints one line per run plus any VIOLATION lines
 SEEDS=$1; shift
-PROPS=${@:-C01 C02 C03 C04 C05 C06 C07 C08 C09 C10 C11 C12 C13 C15 C16 C17 C18 C19 C20}
+PROPS=${@:-C01 C02 C03 C04 C05 C06 C07 C08 C09 C10 C11 C12 C13 C14 C15 C16 C17 C18 C19 C20}
 cd "$(dirname "$0")/.."
 for s in $SEEDS; do for p in $PROPS; do
   VERIF_SEED=$s bin/check $p 2>&1 | grep -E "^VIOLATION|^  key|seed=|HARNESS|BUILD FAILED" | cut -c1-300
